@@ -91,6 +91,15 @@ impl BuildRecord {
             });
         }
 
+        // The build number is emitted in the `BuildId!DEC:4` column: it has to be a decimal number
+        if !self.build.bytes().all(|b| b.is_ascii_digit()) || self.build.parse::<u32>().is_err() {
+            return Err(DatabaseError::InvalidField {
+                field: "build".to_string(),
+                build_id: self.id,
+                reason: format!("expected a decimal build number, got '{}'", self.build),
+            });
+        }
+
         // Validate MD5 hashes (32 hex characters)
         self.validate_hash("build_config", &self.build_config)?;
         self.validate_hash("cdn_config", &self.cdn_config)?;
